@@ -211,10 +211,15 @@ inline void dumpModel(std::ostream& os, Document& doc, const std::vector<std::st
     std::ostringstream funs;
     std::vector<Ctx> ctxs;
     std::vector<std::pair<int, function_t*>> flist;
+    std::vector<std::pair<int, size_t>> vinits;              // (variable symbol, index of its initialiser context)
+    std::vector<std::pair<std::string, std::pair<size_t, size_t>>> tranges;  // template name -> [first, last) context index
     auto decls = [&](declarations_t& dc, const std::string& scope, const char* vcls) {
         for (auto& v : dc.variables) {
             d.mark(v.uid, std::string(vcls) + (v.uid.get_type().is_constant() ? ":const" : ":mut"));
-            if (!v.init.empty()) ctxs.push_back({"init:" + scope + v.uid.get_name(), v.init});
+            if (!v.init.empty()) {
+                vinits.push_back({d.id(v.uid), ctxs.size()});
+                ctxs.push_back({"init:" + scope + v.uid.get_name(), v.init});
+            }
             typeBounds("type:" + scope + v.uid.get_name(), v.uid.get_type(), ctxs);
         }
         for (auto& f : dc.functions) {
@@ -237,7 +242,9 @@ inline void dumpModel(std::ostream& os, Document& doc, const std::vector<std::st
             for (auto& v : f.variables) {
                 d.mark(v.uid, "local");
                 funs << " #" << d.id(v.uid);
+                typeBounds("ltype:" + scope + f.uid.get_name() + "." + v.uid.get_name(), v.uid.get_type(), ctxs);
             }
+            for (size_t i = 1; i <= np; ++i) typeBounds("ftype:" + scope + f.uid.get_name() + "." + ft.get_label(i), ft[i], ctxs);
             funs << ") ";
             if (f.body) {
                 StmtDumper sd(d, funs);
@@ -259,7 +266,9 @@ inline void dumpModel(std::ostream& os, Document& doc, const std::vector<std::st
     for (auto& t : doc.get_templates()) {
         std::string sc = t.uid.get_name() + ".";
         params(t.parameters, "tparam");
+        size_t first = ctxs.size();
         decls(t, sc, "tvar");
+        tranges.push_back({t.uid.get_name(), {first, ctxs.size()}});
         for (auto& l : t.locations) {
             if (!l.invariant.empty()) ctxs.push_back({"invariant:" + sc + l.uid.get_name(), l.invariant});
             if (!l.exp_rate.empty()) ctxs.push_back({"exprate:" + sc + l.uid.get_name(), l.exp_rate});
@@ -323,6 +332,12 @@ inline void dumpModel(std::ostream& os, Document& doc, const std::vector<std::st
         }
         // function bodies last so that every symbol has its number
         std::string fs = funs.str();
+        std::ostringstream ri;
+        for (auto& t : doc.get_templates()) {
+            std::vector<int> rs;
+            for (auto& s2 : t.restricted) rs.push_back(d.id(s2));
+            ri << "RI " << t.uid.get_name() << " restricted=[" << idList(rs) << "]\n";
+        }
         os << "M (model (syms";
         for (size_t i = 0; i < d.order.size(); ++i) {
             const symbol_t& s = d.order[i];
@@ -331,7 +346,17 @@ inline void dumpModel(std::ostream& os, Document& doc, const std::vector<std::st
             os << " (s #" << n2 << " " << (t.is_function() || t.is_function_external() ? 1 : 0) << " "
                << (tc.compileTimeComputableValues.contains(s) ? 1 : 0) << " " << (d.cls.count(n2) ? d.cls[n2] : std::string("other")) << ")";
         }
-        os << ") (funs" << fs << ") (ctxs" << cx.str() << "))\n";
+        os << ") (funs" << fs << ") (ctxs" << cx.str() << ") (vars";
+        for (auto& [sym, ci] : vinits) os << " (v #" << sym << " " << ci << ")";
+        os << ") (tmpls";
+        for (auto& [name, rg] : tranges) {
+            os << " (t " << name;
+            for (size_t k = rg.first; k < rg.second; ++k)
+                if (ctxs[k].label.find(":size") != std::string::npos) os << " " << k;
+            os << ")";
+        }
+        os << "))\n";
+        os << ri.str();
         os << real.str();
         for (auto& [fid, f] : flist) {
             std::vector<int> ch, dp;
